@@ -54,3 +54,21 @@ func TestF8b_ImmutableBinder(t *testing.T) {
 		t.Fatalf("bound field kept from the first request changed to %q after the second request", kept[0].Name)
 	}
 }
+
+// F18: c.Accepts lower-cases the parameter names of the Accept header in place — a value the handler
+// obtained with c.Get("Accept") changes before the handler returns.
+func TestF18_AcceptsLeavesHeaderAlone(t *testing.T) {
+	app := fiber.New()
+	var before, after string
+	app.Get("/", func(c fiber.Ctx) error {
+		before = string([]byte(c.Get("Accept")))
+		held := c.Get("Accept")
+		c.Accepts("text/html", "application/json")
+		after = string([]byte(held))
+		return nil
+	})
+	do(app, "GET", "/", "Accept", "text/html;Level=1;Q=0.9, application/json;Version=2")
+	if before != after {
+		t.Fatalf("the Accept header changed under the handler: %q -> %q", before, after)
+	}
+}
